@@ -39,7 +39,20 @@ class Spec(ProgramSpec):
         # must either refuse the call or write something the reader gives back (D27)
         for case in ProgramSpec.cases(self, ctx, budget, rng):
             ps = [i for i, c in enumerate(case[2]) if c[0] == 'P']
-            if ps and rng.random() < 0.03:
+            r = rng.random()
+            if r > 0.97 and case[2]:
+                # a codec name Python accepts but a header cannot carry: the writer must refuse it
+                # or write something the reader gives back (D28)
+                i = rng.randrange(len(case[2]))
+                calls = list(case[2])
+                c = calls[i]
+                bad = rng.choice(['utf 8', 'latin 1', '1252', '437', 'UTF 16', '8859'])
+                pos = {'C': 1, 'F': 1, 'P': 2, 'M': 2, 'D': 3}[c[0]]
+                calls[i] = c[:pos] + (bad,) + c[pos + 1:]
+                case = (case[0], case[1], calls)
+                yield case
+                continue
+            if ps and r < 0.03:
                 i = rng.choice(ps)
                 calls = list(case[2])
                 c = calls[i]
@@ -47,11 +60,16 @@ class Spec(ProgramSpec):
                 case = (case[0], case[1], calls)
             yield case
 
-    @staticmethod
-    def bad_indent(case):
+    BAD_NAMES = ('utf 8', 'latin 1', '1252', '437', 'UTF 16', '8859')
+
+    @classmethod
+    def bad_indent(cls, case):
+        """index of the first call with an argument the writer has to refuse"""
         for i, c in enumerate(case[2]):
             if c[0] == 'P' and c[3] != 'default' and c[3] is not None and (
                     isinstance(c[3], bool) or c[3] < 0):
+                return i
+            if c[{'C': 1, 'F': 1, 'P': 2, 'M': 2, 'D': 3}[c[0]]] in cls.BAD_NAMES:
                 return i
         return None
 
